@@ -13,9 +13,14 @@ namespace ratio
             add_resolver(*new choose_lit(smt::rational(1, static_cast<smt::I>(lits.size())), *this, p));
     }
 
-    disj_flaw::choose_lit::choose_lit(smt::rational cst, disj_flaw &disj_flaw, const smt::lit &p) : resolver(p, cst, disj_flaw) {}
+    // the resolver has a variable of its own: the chosen literal might occur in other disjunctions (or be true for other reasons) and, being true, must not activate this flaw..
+    disj_flaw::choose_lit::choose_lit(smt::rational cst, disj_flaw &disj_flaw, const smt::lit &p) : resolver(cst, disj_flaw), p(p) {}
 
     std::string disj_flaw::choose_lit::get_data() const noexcept { return "{\"rho\":\"" + to_string(get_rho()) + "\"}"; }
 
-    void disj_flaw::choose_lit::apply() {}
+    void disj_flaw::choose_lit::apply()
+    { // activating this resolver makes the chosen literal true..
+        if (!get_solver().get_sat_core().new_clause({!get_rho(), p}))
+            throw unsolvable_exception();
+    }
 } // namespace ratio
